@@ -22,6 +22,11 @@
 (* The Reset line also says which peers of the pool are configured for each kind (conf): the     *)
 (* nodes of a submission are the peers configured for ITS kind (N = conf[kind]); a Call line for  *)
 (* a peer outside N is explained by no action.                                                   *)
+(* A Complete line whose reply is "aborted" says that the node's call was ended by the            *)
+(* cancellation of the context the fan-out handed it (the fakes honour their context like an HTTP *)
+(* client) although the driver's own context was live: judged by DeliveredToEach.  The sibling      *)
+(* fan-outs (kind "prepdirect": the real proposal preparer, driver                                 *)
+(* overlay/services/proposalpreparer/standard/zz_verif_c08_prep_test.go) have no Return line.       *)
 (* Scatter scenarios = Reset + one Scatter line per (items, concurrency) with the extents the   *)
 (* work function was called with; judged by ScatterPartition.                                   *)
 EXTENDS Submitter, TraceLib
@@ -38,7 +43,7 @@ MechIdle ==
 TraceInit ==
     /\ l = 1
     /\ kind = "att" /\ conc = 1 /\ items = 1 /\ nodes = <<>>
-    /\ conf = [k \in Kinds |-> {}]
+    /\ conf = [k \in AllKinds |-> {}]
     /\ ObsInit
     /\ known = <<>> /\ callNo = 1
     /\ MechIdle
@@ -54,7 +59,8 @@ TraceReset ==
     /\ conc' = Trace[l].conc
     /\ items' = Trace[l].items
     /\ nodes' = Trace[l].nodes
-    /\ conf' = [k \in Kinds |-> ToSet(Trace[l].conf[k]) \cap (1..Len(Trace[l].nodes))]
+    /\ conf' = [k \in AllKinds |-> IF k \in DOMAIN Trace[l].conf
+                                    THEN ToSet(Trace[l].conf[k]) \cap (1..Len(Trace[l].nodes)) ELSE {}]
     /\ LET mine == ToSet(Trace[l].conf[Trace[l].kind]) \cap (1..Len(Trace[l].nodes))
        IN /\ offered' = [n \in mine |-> <<>>]
           /\ callAt' = [n \in mine |-> "no"]
@@ -88,7 +94,7 @@ TraceComplete ==
     /\ Trace[l].node \in N
     /\ callAt[Trace[l].node] # "no"
     /\ done[Trace[l].node] = "no"
-    /\ Trace[l].reply \in {"accept", "error"}
+    /\ Trace[l].reply \in {"accept", "error", "aborted"}
     /\ Trace[l].at \in {"before", "amb", "after"}
     /\ ObsComplete(Trace[l].node, Trace[l].reply, Trace[l].at)
     /\ UNCHANGED <<cvars, ivars, offered, callAt, ret, retAt, final, mvars, scat>>
